@@ -40,6 +40,23 @@ Spec == Init /\ [][Receive]_vars
 
 \* every reconstructed number equals the sender's and the RFC's result (C16), along every history
 AlwaysRfc == lastOk
+(* Use as AEAD nonce (RFC 9001 5.3): the 62-bit reconstructed number, left-padded to the IV length, XORed with the IV.
+   Scaled: digits of base B, IV of NIv digits, numbers below B^NPn = Limit (NPn < NIv).  QuicDecryptor.decrypt does
+   int(pn).to_bytes(len(iv)) XOR iv = NonceCode; NonceLowOnly (only the low LowDigits digits of the number reach the nonce --
+   the "a packet number has at most 4 bytes" misreading) is refuted: it is the same for all numbers that agree in those digits. *)
+CONSTANTS B, NIv, LowDigits
+RECURSIVE Pow(_, _)
+Pow(b, n) == IF n = 0 THEN 1 ELSE b * Pow(b, n - 1)
+Digits(x, n) == [i \in 1..n |-> (x \div Pow(B, n - i)) % B]                 \* big-endian, left-padded
+XorD(a, b) == (a + b) % B                                                   \* any digit-wise group operation stands for XOR here
+NonceRfc(iv, pn)  == [i \in 1..NIv |-> XorD(iv[i], Digits(pn, NIv)[i])]
+NonceCode(iv, pn) == NonceRfc(iv, pn)                                       \* to_bytes(len(iv), "big") is the left padding
+NonceLowOnly(iv, pn) == [i \in 1..NIv |-> IF i > NIv - LowDigits THEN XorD(iv[i], Digits(pn % Pow(B, LowDigits), NIv)[i]) ELSE iv[i]]
+SomeIv == [i \in 1..NIv |-> i % B]
+NonceEq == \A pn \in 0..(Limit - 1) : NonceCode(SomeIv, pn) = NonceRfc(SomeIv, pn)
+NonceInjective == \A a, b \in 0..(Limit - 1) : a # b => NonceCode(SomeIv, a) # NonceCode(SomeIv, b)     \* a nonce is never reused under one key
+NonceLowOnlyInjective == (steps >= 0) => \A a, b \in 0..(Limit - 1) : a # b => NonceLowOnly(SomeIv, a) # NonceLowOnly(SomeIv, b)  \* refuted
+
 \* pointwise equivalence over the whole (scaled) domain
 Agree == \A w \in WinSet : \A l \in 0..(Limit - 1) : \A t \in 0..(w - 1) : Code(l, t, w) = Rfc(l, t, w)
 =============================================================================
